@@ -88,6 +88,9 @@ def parse_packet(b):
                 args.append(struct.unpack('>f', b[pos:pos + 4])[0]); pos += 4
             elif t == 's':
                 e = b.index(b'\x00', pos); args.append(b[pos:e].decode()); pos = _pad4(e + 1)
+            elif t == 'b':
+                n = struct.unpack('>i', b[pos:pos + 4])[0]
+                args.append(bytes(b[pos + 4:pos + 4 + n])); pos = _pad4(pos + 4 + n)
             else:
                 raise ValueError('unexpected type tag ' + t)
     return ['m', addr, args]
@@ -140,6 +143,7 @@ class Run:
         self.cache = {}
         self.mutations = []
         self.top_bounds = []
+        self.busy_rng = random.Random(len(json.dumps(prog)))
         self.events = []
         self.schedule = []      # rt: ['top', now] | ['wake', rid, now]
         self.nrout = 0
@@ -319,6 +323,12 @@ class Run:
         return body
 
     def on_resume(self, rid, k, clock):
+        if self.mode == 'rt' and self.prog.get('busy'):
+            # a busy body: the clock thread falls behind by MORE than the deltas the routines yield
+            if self.busy_rng.random() < float(Fraction(self.prog['busy'])):
+                t_end = time.time() + 0.003
+                while time.time() < t_end:
+                    pass
         secs = main.current_tt._seconds
         beats = clock.beats
         if self.mode == 'rt':
@@ -787,6 +797,107 @@ def run_clump(pr):
     return obs
 
 
+# ---------------------------------------------------------------- C07 round 3: bundles nested in MESSAGES (completion messages)
+def run_msgnest(pr):
+    """send_msg('/cmd', 7, [lat, *elems], ['/x', 1]) or send_bundle(outer, ['/cmd', 7, [lat, *elems]]) from a (late) routine on any
+    clock or from outside routines; returns the stamped tree of the nested bundle as read back from the bytes."""
+    global _INTS
+    _INTS = bool(pr.get('ints'))
+    if MODE == 'nrt':
+        main.reset()
+    lock = main._main_lock
+    addr = NetAddr('127.0.0.1', 57110)
+    obs = {'done': False, 'raised': None}
+    captured = []
+    clocks = []
+    with lock:
+        for t in pr['tempos']:
+            clocks.append(TempoClock(num(t)))
+    if MODE == 'rt':
+        main._osc_interface._send = lambda msg, target: captured.append(bytes(msg.dgram))
+        obs['osc_offset'] = str(SystemClock._elapsed_osc_offset)
+
+    def build(es):
+        out = []
+        for e in es:
+            out.append(['/m', int(e[1])] if e[0] == 'm' else [lat_of(e[1])] + build(e[2]))
+        return out
+
+    def find_cmd(tree):
+        if tree[0] == 'm':
+            return tree if tree[1] == '/cmd' else None
+        for e in tree[2]:
+            r = find_cmd(e)
+            if r is not None:
+                return r
+        return None
+
+    def do_send(inside):
+        nested = [lat_of(pr['lat'])] + build(pr['es'])
+        score = main._osc_interface._osc_score if MODE == 'nrt' else None
+        c0 = max(x[1] for x in score._scoreq._queue) if score else None
+        before = main.elapsed_time() if (MODE == 'rt' and not inside) else None
+        try:
+            if pr['form'] == 'msg':
+                addr.send_msg('/cmd', 7, nested, ['/x', 1])
+            else:
+                addr.send_bundle(lat_of(pr['outer']), ['/cmd', 7, nested])
+        except Exception as e:
+            obs['raised'] = type(e).__name__
+        obs['T'] = fr(main.current_tt._m_seconds if inside else main.main_tt._m_seconds)
+        if before is not None:
+            obs['bounds'] = [fr(before), obs['T'], fr(main.elapsed_time())]
+        if obs['raised'] is None:
+            if MODE == 'nrt':
+                ent = max((x for x in score._scoreq._queue if x[1] > c0), key=lambda x: x[1])
+                top = parse_packet(bytes(ent[2].msg[4:]))
+            else:
+                top = parse_packet(captured[-1])
+            cmd = find_cmd(top)
+            blob = [a for a in cmd[2] if isinstance(a, (bytes, bytearray))][0]
+            obs['nested'] = merge(None, parse_packet(blob), int(obs['osc_offset']) if MODE == 'rt' else 0)
+            if MODE == 'nrt':
+                obs['nested'] = _no_imm(obs['nested'])
+        obs['done'] = True
+
+    if pr['parent'] is None:
+        with lock:
+            do_send(False)
+    else:
+        clock = SystemClock if pr['parent'] == 'S' else AppClock if pr['parent'] == 'A' else clocks[pr['parent'][1]]
+
+        def body(inval):
+            yield num(pr['adv'])
+            if MODE == 'rt':
+                t_end = time.time() + 0.003        # the sender is late
+                while time.time() < t_end:
+                    pass
+            do_send(True)
+
+        def root(inval):
+            yield num(pr['start'])
+            Routine(body).play(clock, 0)
+        with lock:
+            Routine(root).play(SystemClock)
+        if MODE == 'nrt':
+            main.process(0)
+        else:
+            deadline = time.time() + 6.0
+            while time.time() < deadline and not obs['done']:
+                time.sleep(0.01)
+    for c in clocks:
+        if MODE == 'rt':
+            c.stop()
+    return obs
+
+
+def _no_imm(tree):
+    """NRT never writes IMMEDIATELY: a timetag 1 read back is the time 2^-32 s, not a flag"""
+    if tree[0] == 'm':
+        return tree
+    return ['b', False, tree[2], tree[3], [_no_imm(x) for x in tree[4]]]
+
+
 def main_():
     payload = json.load(open(sys.argv[1]))
     out = []
@@ -806,7 +917,8 @@ def main_():
             import traceback
             pout.append({'fatal': '%r\n%s' % (e, traceback.format_exc())})
     aout, cout = [], []
-    for key, fn_, acc in (('alongside', run_alongside, aout), ('clumps', run_clump, cout)):
+    mout = []
+    for key, fn_, acc in (('alongside', run_alongside, aout), ('clumps', run_clump, cout), ('msgnest', run_msgnest, mout)):
         for pr in payload.get(key, []):
             try:
                 acc.append(fn_(pr))
@@ -814,7 +926,7 @@ def main_():
                 import traceback
                 acc.append({'fatal': '%r\n%s' % (e, traceback.format_exc())})
     with open(sys.argv[2], 'w') as f:
-        json.dump({'out': out, 'probes_out': pout, 'alongside_out': aout, 'clumps_out': cout}, f)
+        json.dump({'out': out, 'probes_out': pout, 'alongside_out': aout, 'clumps_out': cout, 'msgnest_out': mout}, f)
     global _burn
     _burn = False
 
